@@ -69,6 +69,7 @@ func Analyze(u *Unit) (res *Result, typed bool) {
 	res.importsRule()
 	for _, mk := range mocks {
 		res.mockRules(mk)
+		res.nameRules(mk)
 	}
 	return res, true
 }
@@ -1122,4 +1123,119 @@ func (r *Result) resetRules(mk *Mock, f *Func, fl *flow, facts []methodFacts, ro
 		r.add("K-RESET/frame", role+":every-path", nodePos(node), len(exits) == 0, "%s can return without clearing %s", name, Abstract(string(p)))
 	}
 	r.add("K-FLOW/acyclic", role, f.Decl.Pos(), !fl.hasCycle(), "%s contains a loop", name)
+}
+
+// ---------------------------------------------------------------------
+// K-NAMES: declared-name patterns of a mock's selector namespace (fields and
+// methods share it) that can denote the same identifier for some interface.
+
+type namePat struct {
+	prefix, suffix string
+	hasVar         bool
+	what           string
+}
+
+func (p namePat) String() string {
+	if !p.hasVar {
+		return p.prefix
+	}
+	return p.prefix + "⟨M⟩" + p.suffix
+}
+
+// unifiable decides p1·X·s1 = p2·Y·s2 for non-empty identifiers X ≠ Y
+// (respectively C = p·X·s for a constant C).
+func unifiable(a, b namePat) (bool, string, string) {
+	switch {
+	case !a.hasVar && !b.hasVar:
+		return false, "", "" // equal constants are a redeclaration the type checker reports
+	case !a.hasVar:
+		return unifiableConst(a.prefix, b)
+	case !b.hasVar:
+		ok, x, _ := unifiableConst(b.prefix, a)
+		return ok, x, ""
+	}
+	var p, q string // the longer prefix = shorter prefix + p (on side a: a.prefix = b.prefix+p) ...
+	switch {
+	case strings.HasPrefix(a.prefix, b.prefix):
+		p = strings.TrimPrefix(a.prefix, b.prefix) // Y = p·X...
+	case strings.HasPrefix(b.prefix, a.prefix):
+		q = strings.TrimPrefix(b.prefix, a.prefix) // X = q·Y...
+	default:
+		return false, "", ""
+	}
+	var s, t string
+	switch {
+	case strings.HasSuffix(a.suffix, b.suffix):
+		s = strings.TrimSuffix(a.suffix, b.suffix) // Y ends with s
+	case strings.HasSuffix(b.suffix, a.suffix):
+		t = strings.TrimSuffix(b.suffix, a.suffix) // X ends with t
+	default:
+		return false, "", ""
+	}
+	if p == "" && q == "" && s == "" && t == "" {
+		return false, "", ""
+	}
+	// X = q·W·t , Y = p·W·s with a filler W making both non-empty and different
+	w := ""
+	if q+t == "" || p+s == "" {
+		w = "A"
+	}
+	x, y := q+w+t, p+w+s
+	if x == y {
+		w = "A" + w
+		x, y = q+w+t, p+w+s
+	}
+	return true, x, y
+}
+
+func unifiableConst(c string, b namePat) (bool, string, string) {
+	if strings.HasPrefix(c, b.prefix) && strings.HasSuffix(c, b.suffix) && len(c) > len(b.prefix)+len(b.suffix) {
+		return true, "", c[len(b.prefix) : len(c)-len(b.suffix)]
+	}
+	return false, "", ""
+}
+
+// nameRules reports the unifiable pattern pairs of a mock's selector namespace.
+func (r *Result) nameRules(mk *Mock) {
+	if mk.Struct == nil || len(mk.Info.Methods) < 2 {
+		return
+	}
+	decode := func(name, what string) namePat {
+		for _, me := range mk.Info.Methods {
+			if i := strings.Index(name, me.Name); i >= 0 {
+				return namePat{prefix: name[:i], suffix: name[i+len(me.Name):], hasVar: true, what: what}
+			}
+		}
+		return namePat{prefix: name, what: what}
+	}
+	seen := map[string]namePat{}
+	for i := 0; i < mk.Struct.NumFields(); i++ {
+		p := decode(mk.Struct.Field(i).Name(), "field")
+		seen[p.String()] = p
+	}
+	for _, f := range mk.Funcs {
+		p := decode(f.Decl.Name.Name, "method")
+		seen[p.String()] = p
+	}
+	var keys []string
+	for k := range seen {
+		keys = append(keys, k)
+	}
+	sort.Strings(keys)
+	for i, ka := range keys {
+		for _, kb := range keys[i+1:] {
+			a, b := seen[ka], seen[kb]
+			ok, x, y := unifiable(a, b)
+			wit := ""
+			if ok {
+				wit = fmt.Sprintf("an interface with methods named %q and %q", x, y)
+				if x == "" {
+					wit = fmt.Sprintf("an interface with a method named %q", y)
+				} else if y == "" {
+					wit = fmt.Sprintf("an interface with a method named %q", x)
+				}
+			}
+			r.add("K-NAMES/unifiable", ka+"~"+kb, mk.Spec.Pos(), !ok, "the generated %s %s and %s %s denote the same identifier for %s: the mock type then declares it twice and does not compile", a.what, ka, b.what, kb, wit)
+		}
+	}
 }
